@@ -16,7 +16,7 @@ pub fn make_case(class: &str, seed: u64, case_no: u64) -> Case {
   // One case in 40 is "huge" (up to 40 tasks with up to 24 operations over up to 12 resources): fan-in / fan-out and
   // dependency counts beyond any small inline capacity or threshold. Drawn from a separate stream so that all other
   // cases stay what they were.
-  let huge = !soak && Rng::derive(seed ^ 0x4875_6765, case_no).chance(1, 40);
+  let huge = !soak && !cfg!(miri) && Rng::derive(seed ^ 0x4875_6765, case_no).chance(1, 40);
   let o = if huge { let _ = rng.chance(1, 4); GenOpts { max_tasks: 40, exact_only: exact, max_ops: 24, max_src: 6, max_gen: 6 } }
     else { GenOpts { max_tasks: if big { 16 } else if rng.chance(1, 4) { 10 } else { 6 }, exact_only: exact, max_ops: if big { 7 } else { 5 }, max_src: 3, max_gen: 3 } };
   let prog = gen::gen_program(&mut rng, &o);
